@@ -2,6 +2,7 @@ package main
 
 import (
 	"fmt"
+	"go/token"
 	"go/types"
 	"regexp"
 	"sort"
@@ -266,6 +267,9 @@ func c11(c *ctx) {
 	// ------------------------------------------------------------------ R7
 	c.ruleOversizeRolledBack("R7")
 
+	// ------------------------------------------------------------------ R8
+	c11sizeMeasure(c)
+
 }
 
 // the named result `r` lives in a cell because of the deferred recover: it holds the fresh results object or nil
@@ -329,3 +333,240 @@ func short(s string) string {
 }
 
 var _ = sort.Strings
+
+// sumLeaves decomposes an additive size expression into its leaves: len(x) terms, field loads and anything else.
+// Loop accumulators (phis) are followed through their incoming edges; the zero constant is dropped.
+func sumLeaves(p *Prog, v ssa.Value) []ssa.Value {
+	var out []ssa.Value
+	seen := map[ssa.Value]bool{}
+	var walk func(x ssa.Value)
+	walk = func(x ssa.Value) {
+		if seen[x] {
+			return
+		}
+		seen[x] = true
+		switch y := x.(type) {
+		case *ssa.Convert:
+			walk(y.X)
+		case *ssa.ChangeType:
+			walk(y.X)
+		case *ssa.Phi:
+			for _, e := range y.Edges {
+				walk(e)
+			}
+		case *ssa.BinOp:
+			if y.Op == token.ADD {
+				walk(y.X)
+				walk(y.Y)
+				return
+			}
+			out = append(out, x)
+		case *ssa.Const:
+			if y.Value != nil && y.Value.ExactString() == "0" {
+				return
+			}
+			out = append(out, x)
+		default:
+			out = append(out, x)
+		}
+	}
+	walk(v)
+	return out
+}
+
+// txElem reports whether v is a []byte element loaded from a [][]byte (a transaction of a transaction list).
+func txElem(v ssa.Value) bool {
+	u, ok := v.(*ssa.UnOp)
+	if !ok || u.Op != token.MUL {
+		return false
+	}
+	ia, ok := u.X.(*ssa.IndexAddr)
+	if !ok {
+		return false
+	}
+	sl, ok := ia.X.Type().Underlying().(*types.Slice)
+	if !ok {
+		return false
+	}
+	in, ok := sl.Elem().Underlying().(*types.Slice)
+	return ok && isByte(in.Elem())
+}
+
+// lenOfTx reports whether v is len(e) with e a transaction: an element of a [][]byte, or a []byte parameter that every
+// non-test caller fills with such an element.
+func lenOfTx(p *Prog, v ssa.Value) (ssa.Value, bool) {
+	call, ok := v.(*ssa.Call)
+	if !ok {
+		return nil, false
+	}
+	b, ok := call.Call.Value.(*ssa.Builtin)
+	if !ok || b.Name() != "len" || len(call.Call.Args) != 1 {
+		return nil, false
+	}
+	arg := call.Call.Args[0]
+	if sl, ok := arg.Type().Underlying().(*types.Slice); !ok || !isByte(sl.Elem()) {
+		return nil, false
+	}
+	if txElem(arg) {
+		return arg, true
+	}
+	if pa, ok := arg.(*ssa.Parameter); ok {
+		f := pa.Parent()
+		idx := -1
+		for i, q := range f.Params {
+			if q == pa {
+				idx = i
+			}
+		}
+		n := p.CG.Nodes[f]
+		if idx < 0 || n == nil {
+			return nil, false
+		}
+		sites := 0
+		for _, e := range n.In {
+			if e.Site == nil || isTestFile(p, e.Site.Pos()) || e.Site.Common().IsInvoke() {
+				continue
+			}
+			args := e.Site.Common().Args
+			if idx >= len(args) || !txElem(args[idx]) {
+				return nil, false
+			}
+			sites++
+		}
+		return arg, sites > 0
+	}
+	return nil, false
+}
+
+// c11sizeMeasure (C11.R8): proposer and replica bound the same quantity. The proposer fills a block until the sum of the
+// raw transaction lengths would exceed GetMaxBlockSize(); the replica's certificate check must measure that same sum (its
+// limit, the BlockSize parameter, is larger by the header allowance). Measuring anything that grows faster — the encoded
+// block, results — makes replicas reject blocks an honest proposer legitimately fills.
+func c11sizeMeasure(c *ctx) {
+	r := c.r
+	r.Rule("R8", "AGREE", "block-size gate measures one quantity on both sides: the proposer (ApplyTransactions, ApplyBlockResults.BlockSize) and the replica (QuorumCertificate.Check) both compare a sum of len(transaction) terms with the limit; BlockSize has a single writer adding len(tx)", 4)
+	applyTxs := c.fn("fsm.(*StateMachine).ApplyTransactions")
+	qcCheck := c.fn("lib.(*QuorumCertificate).Check")
+	addOK := c.fn("lib.(*ApplyBlockResults).Add")
+	bsF := c.field("lib", "ApplyBlockResults", "BlockSize")
+	getMax := c.fn("fsm.(*StateMachine).GetMaxBlockSize")
+	if applyTxs == nil || qcCheck == nil || addOK == nil || bsF == nil || getMax == nil {
+		return
+	}
+	describe := func(leaves []ssa.Value) string {
+		var ps []string
+		for _, l := range leaves {
+			ps = append(ps, c.p.path(l))
+		}
+		return strings.Join(ps, " + ")
+	}
+	// replica: the comparison against the maxBlockSize parameter
+	var maxParam ssa.Value
+	for _, pa := range qcCheck.Params {
+		if pa.Name() == "maxBlockSize" {
+			maxParam = pa
+		}
+	}
+	if maxParam == nil {
+		r.Unk("R8/QuorumCertificate.Check/limit", c.p.Pos(qcCheck.Pos()), "QuorumCertificate.Check has no maxBlockSize parameter any more (rule needs re-reading)")
+		return
+	}
+	nRep := 0
+	instrs(qcCheck, func(in ssa.Instruction) {
+		b, ok := in.(*ssa.BinOp)
+		if !ok || !isOrdering(b.Op) {
+			return
+		}
+		var measured ssa.Value
+		if stripConv(b.Y) == maxParam {
+			measured = b.X
+		} else if stripConv(b.X) == maxParam {
+			measured = b.Y
+		} else {
+			return
+		}
+		nRep++
+		leaves := sumLeaves(c.p, measured)
+		ok = len(leaves) > 0
+		for _, l := range leaves {
+			e, isLen := lenOfTx(c.p, l)
+			if !isLen || !strings.Contains(c.p.path(e), ".Transactions") {
+				ok = false
+			}
+		}
+		r.Check(ok, "R8/QuorumCertificate.Check/measure", c.p.Pos(b.Pos()), "replica measures "+describe(leaves)+" (transaction bytes)",
+			"the replica compares "+describe(leaves)+" with the block-size limit; the proposer bounds the sum of raw transaction lengths, so a block the honest proposer fills to its limit can exceed what replicas accept")
+	})
+	r.Check(nRep >= 1, "R8/QuorumCertificate.Check/gate", c.p.Pos(qcCheck.Pos()), "the certificate check bounds the block size", "QuorumCertificate.Check no longer compares anything with maxBlockSize")
+	// proposer: the comparison against GetMaxBlockSize()'s result
+	nProp := 0
+	instrs(applyTxs, func(in ssa.Instruction) {
+		b, ok := in.(*ssa.BinOp)
+		if !ok || !isOrdering(b.Op) {
+			return
+		}
+		isLimit := func(v ssa.Value) bool {
+			ex, ok := stripConv(v).(*ssa.Extract)
+			if !ok || ex.Index != 0 {
+				return false
+			}
+			call, ok := ex.Tuple.(*ssa.Call)
+			return ok && callIs(call.Common(), getMax)
+		}
+		var measured ssa.Value
+		if isLimit(b.Y) {
+			measured = b.X
+		} else if isLimit(b.X) {
+			measured = b.Y
+		} else {
+			return
+		}
+		nProp++
+		leaves := sumLeaves(c.p, measured)
+		ok = len(leaves) > 0
+		for _, l := range leaves {
+			if _, isLen := lenOfTx(c.p, l); isLen {
+				continue
+			}
+			if pth := c.p.path(l); strings.HasSuffix(pth, ".BlockSize") {
+				continue
+			}
+			ok = false
+		}
+		r.Check(ok, "R8/ApplyTransactions/measure", c.p.Pos(b.Pos()), "proposer measures "+describe(leaves), "the proposer's size gate compares "+describe(leaves)+" with GetMaxBlockSize(): it no longer bounds the sum of raw transaction lengths the replica measures")
+	})
+	r.Check(nProp >= 1, "R8/ApplyTransactions/gate", c.p.Pos(applyTxs.Pos()), "ApplyTransactions bounds the block against GetMaxBlockSize()", "ApplyTransactions no longer compares the running size with GetMaxBlockSize()")
+	// the accumulator: BlockSize is written only by Add, as BlockSize + len(tx)
+	for _, w := range c.p.fieldWrites(bsF) {
+		f := w.Fn
+		if isTestFile(c.p, f.Pos()) || isFreshAlloc(w.Base) {
+			continue
+		}
+		okw := f == addOK
+		if okw {
+			for _, l := range sumLeaves(c.p, w.Instr.Val) {
+				if _, isLen := lenOfTx(c.p, l); isLen {
+					continue
+				}
+				if strings.HasSuffix(c.p.path(l), ".BlockSize") {
+					continue
+				}
+				okw = false
+			}
+		}
+		r.Check(okw, "R8/BlockSize-writer/"+fnName(f), c.p.Pos(w.Instr.Pos()), "BlockSize += len(tx) in ApplyBlockResults.Add", fnName(f)+" writes ApplyBlockResults.BlockSize with something other than BlockSize + len(tx): the proposer's running size no longer equals the sum of transaction lengths")
+	}
+}
+
+func stripConv(v ssa.Value) ssa.Value {
+	for {
+		switch x := v.(type) {
+		case *ssa.Convert:
+			v = x.X
+		case *ssa.ChangeType:
+			v = x.X
+		default:
+			return v
+		}
+	}
+}
